@@ -23,6 +23,7 @@ type Type struct {
 	SC   bool   `json:"sc,omitempty"`
 	N    int    `json:"n,omitempty"`
 	FS   []Type `json:"fs,omitempty"`
+	PK   bool   `json:"pk,omitempty"` // packed struct
 	Nm   string `json:"nm,omitempty"`
 	Body *Type  `json:"body,omitempty"`
 	Ret  *Type  `json:"ret,omitempty"`
@@ -55,14 +56,18 @@ func (t Type) String() string {
 	case "arr":
 		return fmt.Sprintf("[%d x %s]", t.N, t.E.String())
 	case "struct":
-		if len(t.FS) == 0 {
-			return "{}"
-		}
 		var fs []string
 		for _, f := range t.FS {
 			fs = append(fs, f.String())
 		}
-		return "{ " + strings.Join(fs, ", ") + " }"
+		body := "{}"
+		if len(fs) > 0 {
+			body = "{ " + strings.Join(fs, ", ") + " }"
+		}
+		if t.PK {
+			return "<" + body + ">"
+		}
+		return body
 	case "named":
 		return "%" + t.Nm
 	case "func":
@@ -223,6 +228,7 @@ type Op struct {
 	Role string `json:"role"`
 	Src  string `json:"src"`
 	Ty   Type   `json:"ty"`
+	CV   int    `json:"cv"` // value a constant operand must have (struct field number of a getelementptr), else -1
 	V    *Ref   `json:"v,omitempty"`
 }
 
@@ -252,6 +258,7 @@ type Case struct {
 	Idx   []int    `json:"idx"`
 	Ops   []Op     `json:"ops"`
 	Succs []int    `json:"succs"`
+	Alias []int    `json:"alias,omitempty"` // per operand (1-based): the operand whose value it shares
 	Name  string   `json:"name,omitempty"`
 }
 
@@ -279,7 +286,23 @@ func (c *Case) ID() string {
 	for _, k := range sortedKeys(c.Attrs) {
 		as = append(as, k+"="+c.Attrs[k])
 	}
-	return fmt.Sprintf("%s/%s/%s/cnt%v/bund%v/%s/%s%s%s", c.Kind, c.Fam, c.Cls, c.Cfg.Cnt, c.Cfg.Bund, strings.Join(c.Flags, "+"), strings.Join(as, ","), n, w)
+	x := ""
+	if len(c.Idx) > 0 {
+		x = fmt.Sprintf("/idx%v", c.Idx)
+	}
+	for i, a := range c.Alias {
+		if a != i+1 {
+			x += fmt.Sprintf("/op%d=op%d", i+1, a)
+		}
+	}
+	if c.Kind == "getelementptr" && c.Fam == "path" {
+		for i := range c.Ops {
+			if c.Ops[i].CV >= 0 {
+				x += fmt.Sprintf("/i%d=%d", c.Ops[i].I, c.Ops[i].CV)
+			}
+		}
+	}
+	return fmt.Sprintf("%s/%s/%s/cnt%v/bund%v/%s/%s%s%s%s", c.Kind, c.Fam, c.Cls, c.Cfg.Cnt, c.Cfg.Bund, strings.Join(c.Flags, "+"), strings.Join(as, ","), n, w, x)
 }
 
 func sortedKeys(m map[string]string) []string {
